@@ -520,3 +520,13 @@ for _h in ("lifecycle_near", "lifecycle_bool", "lifecycle_far"):
 import verus_drop  # noqa: E402
 VERUS["drop_order_unbounded"] = dict(props=["C02", "C12"], builder=verus_drop.build, fns=[(INJ, "drop")], expect_verified=2,
                                      shared={"C02.order.all-dropped": ["C12"], "C02.order.reverse.unbounded": ["C12"]})
+
+# wave-4 strengthenings: obligations that also decide a neighbouring property
+VERUS["alloc_linux_x86_64"]["props"] = sorted(set(VERUS["alloc_linux_x86_64"]["props"]) | {"C03"})
+VERUS["alloc_linux_x86_64"]["shared"] = dict(VERUS["alloc_linux_x86_64"]["shared"], **{"C11.alloc.unmap-own": ["C12", "C03"], "C11.alloc.unmap-len": ["C12", "C03"]})
+HARNESSES["c11_alloc_twin"]["props"] = sorted(set(HARNESSES["c11_alloc_twin"]["props"]) | {"C03"})
+HARNESSES["c11_alloc_twin"]["shared"] = {"C11.twin.frame": ["C12", "C03"]}
+HARNESSES["c07_reset"]["props"] = sorted(set(HARNESSES["c07_reset"]["props"]) | {"C08", "C06"})
+HARNESSES["c07_reset"]["shared"] = {"C07.reset": ["C08", "C06"], "C07.same-verifier": ["C08", "C06"]}
+HARNESSES["c06_verdict"]["props"] = sorted(set(HARNESSES["c06_verdict"]["props"]) | {"C08", "C07"})
+HARNESSES["c06_verdict"]["shared"] = {"C06.verdict.readonly": ["C08", "C07"], "C06.verdict.panics-when-differs": ["C08"]}
